@@ -277,6 +277,30 @@ class QueryCreator(BaseQueryCreator):
         use_ns = {"odml": odmlns, "rdf": RDF}
         return prepareQuery(self.query, initNs=use_ns)
 
+    @staticmethod
+    def _attribute_pattern(variable, fmt, attr, value, index):
+        """
+        Returns the SPARQL lines that restrict the node *variable* to nodes
+        carrying *value* in the odML attribute *attr*.
+
+        The id of an odML object is not exported as a triple but is part of the
+        node URI. All other values are compared by their text, since literals
+        like dates or uncertainties are exported as typed literals, which never
+        equal a plain string literal.
+        """
+        if attr == "id":
+            return "FILTER(STRENDS(STR(?{0}), \"#{1}\")) .\n".format(variable, value)
+
+        rdf_attr = fmt.rdf_map(attr)
+        if not rdf_attr:
+            return ""
+
+        re_sub = re.sub(str(odmlns), "odml:", rdf_attr)
+        attr_var = "{0}_attr{1}".format(variable, index)
+        lines = "?{0} {1} ?{2} .\n".format(variable, re_sub, attr_var)
+        lines += "FILTER(STR(?{0}) = \"{1}\") .\n".format(attr_var, value)
+        return lines
+
     def _prepare_query(self):
         """
         Creates rdflib query using parameters from self.q_dict.
@@ -284,44 +308,37 @@ class QueryCreator(BaseQueryCreator):
         :return: string representing rdflib query.
         """
 
-        odml_uri = str(odmlns)
         self.query = "SELECT * WHERE {\n"
 
         if "Doc" in self.q_dict.keys():
             doc_attrs = self.q_dict["Doc"]
             if len(doc_attrs) > 0:
                 self.query += "?d rdf:type odml:Document .\n"
-                for i in doc_attrs:
+                for idx, i in enumerate(doc_attrs):
                     if len(i) > 2:
                         msg = "Attributes in the query \"{}\" are not valid.".format(i)
                         raise ValueError(msg)
                     else:
-                        attr = Document.rdf_map(i[0])
-                        if attr:
-                            re_sub = re.sub(odml_uri, "odml:", attr)
-                            self.query += "?d {0} \"{1}\" .\n".format(re_sub, i[1])
+                        self.query += self._attribute_pattern("d", Document, i[0], i[1], idx)
 
         if "Sec" in self.q_dict.keys():
             sec_attrs = self.q_dict["Sec"]
             if len(sec_attrs) > 0:
                 self.query += "?d odml:hasSection ?s .\n"
                 self.query += "?s rdf:type odml:Section .\n"
-                for i in sec_attrs:
+                for idx, i in enumerate(sec_attrs):
                     if len(i) > 2:
                         msg = "Attributes in the query \"{}\" are not valid.".format(i)
                         raise ValueError(msg)
                     else:
-                        attr = Section.rdf_map(i[0])
-                        if attr:
-                            re_sub = re.sub(odml_uri, "odml:", attr)
-                            self.query += "?s {0} \"{1}\" .\n".format(re_sub, i[1])
+                        self.query += self._attribute_pattern("s", Section, i[0], i[1], idx)
 
         if "Prop" in self.q_dict.keys():
             prop_attrs = self.q_dict["Prop"]
             if len(prop_attrs) > 0:
                 self.query += "?s odml:hasProperty ?p .\n"
                 self.query += "?p rdf:type odml:Property .\n"
-                for i in prop_attrs:
+                for idx, i in enumerate(prop_attrs):
                     if len(i) > 2:
                         msg = "Attributes in the query \"{}\" are not valid.".format(i)
                         raise ValueError(msg)
@@ -332,10 +349,7 @@ class QueryCreator(BaseQueryCreator):
                             for val in values:
                                 self.query += "?v rdf:li \"{}\" .\n".format(val)
                     else:
-                        attr = Property.rdf_map(i[0])
-                        if attr:
-                            re_sub = re.sub(odml_uri, "odml:", attr)
-                            self.query += "?p {0} \"{1}\" .\n".format(re_sub, i[1])
+                        self.query += self._attribute_pattern("p", Property, i[0], i[1], idx)
 
         self.query += "}\n"
         return self.query
